@@ -541,7 +541,7 @@ def oracle_aux(ctx):
         bound = (10 * x ** (order_p + 1) + 1e-9) if order_p is not None else EXACT_BOUND[sc]
         ctx.count("oracle", 2)
         ctx.metric_max(f"aux_err_over_bound:{sc}", e / bound)
-        ctx.check(e <= bound, f"aux-space|{sc}|{mode}|differs-from-(U x 1)psi", err=e, bound=bound, x=x, kind=kind,
+        ctx.check(e <= bound, f"aux-space|{sc}|{mode}|differs-from-U-on-the-physical-DoFs", err=e, bound=bound, x=x, kind=kind,
                   on_physical_tree=on_p_tree, bonds=list(s.bond_dims))
         mask = dense.sector_mask(order, q)
         ctx.check(float(np.linalg.norm(got[~mask])) <= 1e-10 * scale, f"sector|{sc}|{mode}|amplitude-outside-the-sector", aux=True)
